@@ -49,9 +49,13 @@ pub enum Script {
     Refuse,
     Stall,
     FallBack,
+    /// reports the state on the first status read and has fallen back on the second
+    FallBackSoon,
+    /// reports the state and falls back two datagrams later, whether or not anybody looks
+    FallBackTimed,
 }
 
-const SCRIPTS: [Script; 6] = [Script::Accept0, Script::Accept1, Script::Accept2, Script::Refuse, Script::Stall, Script::FallBack];
+const SCRIPTS: [Script; 8] = [Script::Accept0, Script::Accept1, Script::Accept2, Script::Refuse, Script::Stall, Script::FallBack, Script::FallBackSoon, Script::FallBackTimed];
 
 impl Script {
     fn answer(self, prev: u8) -> AlAnswer {
@@ -62,10 +66,12 @@ impl Script {
             Script::Refuse => AlAnswer::Refuse { code: 0x0011 },
             Script::Stall => AlAnswer::Stall,
             Script::FallBack => AlAnswer::AcceptThenFallBack { polls: 3, to: prev, code: 0x001b },
+            Script::FallBackSoon => AlAnswer::AcceptThenFallBack { polls: 1, to: prev, code: 0x001b },
+            Script::FallBackTimed => AlAnswer::AcceptThenFallBackTimed { ticks: 2, to: prev, code: 0x001b },
         }
     }
     fn gets_there(self) -> bool {
-        matches!(self, Script::Accept0 | Script::Accept1 | Script::Accept2 | Script::FallBack)
+        matches!(self, Script::Accept0 | Script::Accept1 | Script::Accept2 | Script::FallBack | Script::FallBackSoon | Script::FallBackTimed)
     }
 }
 
@@ -128,6 +134,8 @@ fn run_case(case: &Case, healthy_us: u64) -> (String, Vec<(String, String)>, u64
         for (i, s) in scripts.iter().enumerate() {
             seg.devices[i].al_script.insert(for_state, s.answer(prev));
             seg.devices[i].writes.clear();
+            seg.devices[i].al_changes.clear();
+            seg.devices[i].al_reads.clear();
         }
     };
     macro_rules! finish {
@@ -148,7 +156,30 @@ fn run_case(case: &Case, healthy_us: u64) -> (String, Vec<(String, String)>, u64
             if ok && trans != Trans::PreOpRequestOp {
                 // at the moment it was checked every member reported the state; afterwards only a
                 // scripted fall-back may change it
-                let fell_back = members.iter().any(|i| case.scripts[*i] == Script::FallBack);
+                let fell_back = members.iter().any(|i| matches!(case.scripts[*i], Script::FallBack | Script::FallBackSoon | Script::FallBackTimed));
+                // "at the moment it was checked, every SubDevice of the group reported the requested
+                // state": the success must rest on one check round, i.e. the last status reads before
+                // the call returned are one per member and each of them reported the state. (Reports
+                // collected in different rounds do not count: a member may have fallen back since.)
+                let mut reads: Vec<(u64, usize, u8)> = Vec::new();
+                for i in &members {
+                    for (seq, st) in &seg.devices[*i].al_reads {
+                        reads.push((*seq, *i, *st));
+                    }
+                }
+                reads.sort();
+                let m = members.len();
+                let tail: Vec<(u64, usize, u8)> = reads.iter().rev().take(m).cloned().collect();
+                let mut seen: Vec<usize> = tail.iter().map(|r| r.1).collect();
+                seen.sort();
+                seen.dedup();
+                let one_round = tail.len() == m && seen.len() == m && tail.iter().all(|r| r.2 == target);
+                if !one_round && m > 0 {
+                    viol.push((
+                        "success-not-backed-by-one-check-round".into(),
+                        format!("transition {:?} returned Ok but the last {} status reads of the members (seq, device, reported) were {:x?}, not one report of {:#x} per member (scripts {:?})", trans, m, tail, target, case.scripts),
+                    ));
+                }
                 if !all_there && !fell_back {
                     viol.push((
                         "success-without-all-members-in-state".into(),
@@ -162,7 +193,10 @@ fn run_case(case: &Case, healthy_us: u64) -> (String, Vec<(String, String)>, u64
                     ));
                 }
             }
-            if !ok && $res.is_ok() && can_all_get_there && !case.on_intermediate {
+            // a member that falls back after one status read may or may not be caught in the state
+            // together with slower members: only the other scripts oblige the call to succeed
+            let must_succeed = members.iter().all(|i| case.scripts[*i].gets_there() && !matches!(case.scripts[*i], Script::FallBackSoon | Script::FallBackTimed));
+            if !ok && $res.is_ok() && must_succeed && !case.on_intermediate {
                 viol.push((
                     "healthy-transition-failed".into(),
                     format!("transition {:?} failed ({}) although every member accepts (scripts {:?})", trans, match &$res { Ok(Err(e)) => format!("{:?}", e), _ => String::new() }, case.scripts),
@@ -363,9 +397,35 @@ fn run_summary(n: usize, thorough: bool) -> (u64, Vec<(String, String)>, BTreeMa
     (evals, viol, outcomes)
 }
 
+/// "The per-cycle state list says exactly what the devices reported", for groups whose status
+/// reads need 1..=4 frames in each of the three cycle calls: C07's cycle harness (segment simulator,
+/// wire log) is reused and only its state-list clauses are judged here.
+fn cycle_state_lists(thorough: bool) -> (u64, Vec<(String, String)>) {
+    use crate::checks::c07::{run_layout, Layout, Variant};
+    let mut n = 0u64;
+    let mut viol: Vec<(String, String)> = Vec::new();
+    let counts: &[usize] = if thorough { &[1, 2, 3, 5, 6, 7, 8] } else { &[2, 5, 8] };
+    for &devs in counts {
+        for second_group in [false, true] {
+            let layout = Layout { devs: (0..devs).map(|k| (1 + k % 2, k % 2)).collect(), second_group };
+            for variant in [Variant::Plain, Variant::Dc, Variant::SyncRef, Variant::SyncNoRef] {
+                // 44-byte frames carry two status reads, 64-byte frames three, 1100 all of them
+                let r = run_layout(&layout, variant, &[44, 50, 64, 1100]);
+                n += r.cycles;
+                for (sig, msg) in r.viol {
+                    if sig.starts_with("state-") && !viol.iter().any(|v| v.0 == sig) {
+                        viol.push((format!("cycle-{}", sig), format!("{} [{:?}, {} devices]", msg, variant, devs)));
+                    }
+                }
+            }
+        }
+    }
+    (n, viol)
+}
+
 pub fn c10(tier: &Tier) -> Result<i32, String> {
     let mut rep = Report::new("C10", "fault_enumeration", tier);
-    rep.rule = "networks of 1..=N simulated SubDevices split over the group under test and another group in every way; for each of the 7 transitions every vector of per-device AL scripts from {accept at once, after 1 poll, after 2 polls, refuse with status code, stall forever, accept then fall back} on the members (healthy non-members), plus the script on the intermediate SAFE-OP step of into_op; summary predicates: every vector of reported states over {None,Init,PreOp,Bootstrap,SafeOp,Op,Other(5)} for 1..=M devices; non-trivial = at least two devices or a non-accepting script".into();
+    rep.rule = "networks of 1..=N simulated SubDevices split over the group under test and another group in every way; for each of the 7 transitions every vector of per-device AL scripts from {accept at once, after 1 poll, after 2 polls, refuse with status code, stall forever, accept then fall back after 3 further status reads, accept then fall back after 1, accept then fall back two datagrams later whoever is addressed} on the members (healthy non-members), plus the script on the intermediate SAFE-OP step of into_op; summary predicates: every vector of reported states over {None,Init,PreOp,Bootstrap,SafeOp,Op,Other(5)} for 1..=M devices; the state list of every cycle call (tx_rx, tx_rx_dc, tx_rx_sync_system_time with and without reference) for groups of 2, 5 and 8 devices (1..=8 thorough) with frames that carry 2, 3 or all status reads; non-trivial = at least two devices or a non-accepting script".into();
     rep.assumptions = vec![
         "segment simulator AL state machine: FPWR leaves datagram data unchanged (as hardware does), a refusing device keeps its state and raises the error bit + status code".into(),
         "virtual time, state-transition timeout 5 ms, PDU timeout 300 us, 10 us per frame; 'within the transition timeout' is checked with 4.8 ms slack for configuration frames and the final poll".into(),
@@ -476,6 +536,15 @@ pub fn c10(tier: &Tier) -> Result<i32, String> {
         }
         for (s, m, c) in viol {
             rep.violation(&s, &format!("{} [{}]", m, c), json!({"engine": "c10", "case": c}));
+        }
+    }
+    {
+        let (n, viol) = cycle_state_lists(tier.thorough);
+        rep.evaluations += n;
+        rep.nontrivial += n;
+        *rep.outcomes.entry("cycle state list checked".into()).or_insert(0) += n;
+        for (s, m) in viol {
+            rep.violation(&s, &m, json!({"engine": "c10", "case": m}));
         }
     }
     rep.states = rep.evaluations;
